@@ -1082,3 +1082,51 @@ Proof.
   intros I B. eapply um_struct_kid_fails; eauto. intros acc0. simpl.
   unfold chk. destruct (MAXD <=? d + 1); [reflexivity|exact B].
 Qed.
+
+(* ------------------------------------------------------------------ *)
+(** * Invalid Depth / Overwrite values: ASCII-case variants of the literals are not invalid *)
+
+Lemma depth_literal_is_ci s d : parse_depth s = Some d -> depth_literal_ci s = true.
+Proof.
+  unfold parse_depth, depth_literal_ci.
+  destruct (String.eqb s "0") eqn:E0; [apply String.eqb_eq in E0; subst; reflexivity|].
+  destruct (String.eqb s "1") eqn:E1; [apply String.eqb_eq in E1; subst; reflexivity|].
+  destruct (String.eqb s "infinity") eqn:E2; [apply String.eqb_eq in E2; subst; reflexivity|discriminate].
+Qed.
+
+Lemma overwrite_literal_is_ci s v : parse_overwrite s = Some v -> overwrite_literal_ci s = true.
+Proof.
+  unfold parse_overwrite, overwrite_literal_ci.
+  destruct (String.eqb s "T") eqn:E0; [apply String.eqb_eq in E0; subst; reflexivity|].
+  destruct (String.eqb s "F") eqn:E1; [apply String.eqb_eq in E1; subst; reflexivity|discriminate].
+Qed.
+
+(** the classification: a non-empty value that is not a literal in any letter case *)
+Lemma bad_depth_iff r :
+  bad_depth r = true <-> str_empty (r_depth r) = false /\ depth_literal_ci (r_depth r) = false.
+Proof.
+  unfold bad_depth. split.
+  - intros H. apply andb_true_iff in H. destruct H as [H1 H2]. apply andb_true_iff in H2. destruct H2 as [_ H2].
+    apply negb_true_iff in H1, H2. auto.
+  - intros [H1 H2]. rewrite H1, H2. simpl.
+    destruct (parse_depth (r_depth r)) eqn:P; [|reflexivity].
+    apply depth_literal_is_ci in P. congruence.
+Qed.
+
+Lemma bad_overwrite_iff r :
+  bad_overwrite r = true <-> str_empty (r_overwrite r) = false /\ overwrite_literal_ci (r_overwrite r) = false.
+Proof.
+  unfold bad_overwrite. split.
+  - intros H. apply andb_true_iff in H. destruct H as [H1 H2]. apply andb_true_iff in H2. destruct H2 as [_ H2].
+    apply negb_true_iff in H1, H2. auto.
+  - intros [H1 H2]. rewrite H1, H2. simpl.
+    destruct (parse_overwrite (r_overwrite r)) eqn:P; [|reflexivity].
+    apply overwrite_literal_is_ci in P. congruence.
+Qed.
+
+Lemma case_variants_examples :
+  depth_literal_ci "Infinity" = true /\ depth_literal_ci "INFINITY" = true /\ depth_literal_ci "infinity" = true /\
+  overwrite_literal_ci "t" = true /\ overwrite_literal_ci "f" = true /\ overwrite_literal_ci "T" = true /\
+  depth_literal_ci "2" = false /\ depth_literal_ci " 1" = false /\ depth_literal_ci "infinite" = false /\
+  overwrite_literal_ci "X" = false /\ overwrite_literal_ci "TT" = false /\ overwrite_literal_ci "true" = false.
+Proof. repeat split; reflexivity. Qed.
